@@ -545,7 +545,40 @@ fn zf_label(rng: &mut Rng) -> Vec<u8> {
     }
 }
 
+/// A name below `base` whose wire form is exactly `target` octets long (or one short of it
+/// when that cannot be hit), made of labels of up to 63 octets.
+fn name_of_len_below(rng: &mut Rng, base: &RName, target: usize) -> RName {
+    let mut n = base.clone();
+    loop {
+        let room = target.saturating_sub(n.wire_len());
+        if room < 2 {
+            return n;
+        }
+        let len = if room - 1 > 63 {
+            if room - 64 == 1 {
+                62
+            } else {
+                63
+            }
+        } else {
+            room - 1
+        };
+        let l: Vec<u8> = (0..len).map(|_| *rng.pick(b"mM")).collect();
+        let c = n.child(&l);
+        if !c.is_valid() {
+            return n;
+        }
+        n = c;
+    }
+}
+
 fn zf_name(rng: &mut Rng, origin: &RName) -> RName {
+    if rng.chance(1, 25) {
+        // right at the length limit, so that completing the relative spelling with the origin
+        // reaches exactly 255 octets (or stays just below)
+        let target = *rng.pick(&[255usize, 255, 254, 250]);
+        return name_of_len_below(rng, origin, target);
+    }
     let base = match rng.below(6) {
         0 => RName::simple("other.example."),
         1 => RName::root(),
@@ -816,10 +849,41 @@ pub fn run_c24(ctx: &Ctx, rep: &mut Report) {
     for case in ctx.case_range(n) {
         rep.current_case = case;
         let mut rng = ctx.rng("c24", case);
-        let (text, how): (Vec<u8>, &str) = match rng.below(5) {
+        let (text, how): (Vec<u8>, &str) = match rng.below(6) {
             0 => {
                 let len = rng.below(120);
                 (rng.bytes(len), "random")
+            }
+            5 => {
+                // relative names that, completed with the origin, sit around the limits of 255
+                // octets and 128 labels (just inside: a record; beyond: an error, never a panic)
+                let many_labels = rng.bool();
+                let part = |rng: &mut Rng, octets: usize| -> String {
+                    let mut s = String::new();
+                    let mut left = octets;
+                    while left >= 2 {
+                        let len = if many_labels { 1 } else { (left - 1).min(63) };
+                        for _ in 0..len {
+                            s.push(*rng.pick(b"rR") as char);
+                        }
+                        s.push('.');
+                        left -= 1 + len;
+                    }
+                    s
+                };
+                let origin_len = *rng.pick(&[2usize, 9, 64, 128, 129, 193, 250, 254]);
+                let total = rng.range(250, 262);
+                let rel_len = total.saturating_sub(origin_len + 1).max(2);
+                let origin = part(&mut rng, origin_len);
+                let mut rel = part(&mut rng, rel_len);
+                rel.pop(); // relative: no trailing dot
+                let t = match rng.below(4) {
+                    0 => format!("$ORIGIN {}\n{} 60 IN A 192.0.2.1\n", origin, rel),
+                    1 => format!("$ORIGIN {}\n@ 60 IN NS {}\n", origin, rel),
+                    2 => format!("$ORIGIN {}\n@ 60 IN MX 10 {}\nnext 60 IN A 192.0.2.2\n", origin, rel),
+                    _ => format!("$ORIGIN {}\n$ORIGIN {}\n@ 60 IN A 192.0.2.1\n", origin, rel),
+                };
+                (t.into_bytes(), "long-relative")
             }
             4 => {
                 // syntactically fine files whose RDATA is (often) invalid for its
